@@ -1239,13 +1239,15 @@ def piecewise_eval(r: R, chk, quals: List[str], rule="PIECEWISE-EVAL"):
     end is the left limit."""
     from .c10 import CLOSED_NODES, funcrefs
 
-    n = 0
+    n = offering = 0
     for q in quals:
         ctx = r.root(q)
         fi = ctx.fi
         offers_closed = any(f in CLOSED_NODES for d in ast.walk(fi.node) if isinstance(d, ast.Dict) for v in d.values for e in (v.elts if isinstance(v, ast.Tuple) else [v]) for f in funcrefs(ctx, e))
         if not offers_closed:
+            chk.note(f"{rule}: {q} offers no closed node family: evaluating at span ends cannot happen, nothing to decide")
             continue
+        offering += 1
         for lp in [x for x in ast.walk(fi.node) if isinstance(x, ast.For)]:
             inner = {id(x) for st in lp.body for x in ast.walk(st)}
             local = {x.id for x in ast.walk(lp.target) if isinstance(x, ast.Name)}
@@ -1259,7 +1261,7 @@ def piecewise_eval(r: R, chk, quals: List[str], rule="PIECEWISE-EVAL"):
                 chk.ob(rule, f"{q}: `{seg(node, 40)}` inside the span loop evaluates the loop's own piece", ok, loc=r.loc(ctx, node),
                        detail="" if ok else f"{q}: `{seg(node, 40)}` evaluates the whole curve inside the span loop although the method registry offers closed Newton-Cotes nodes: the node at the right end of a span reads the next span, so with method='closed-newton-cotes' the integral of a degree-0 curve / of a curve with an interior knot of multiplicity p+1 / the length of a polyline is wrong (step [0,1] on [0,1,2]: 3/2 instead of 1)",
                        func=q, construct="whole curve evaluated at span ends")
-    chk.floor(rule, "curve evaluations inside span loops", n, len(quals))
+    chk.floor(rule, "curve evaluations inside span loops of the functions that offer a closed node family", n, offering)
 
 
 # ------------------------------------------------------------------------------------------------
@@ -1994,19 +1996,21 @@ def end_exact(r: R, chk, quals: List[str], rule="END-EXACT"):
     be closed has to be mapped with an expression that is exact at both ends — `(1 - t) * lo + t * hi`, or a clamp — before it is
     handed on.  Decided for comprehensions `f(lo, hi, t) for t in <nodes>` where <nodes> may come from a closed family (directly
     or through a registry that offers one); other forms of the map are left undecided."""
-    from .c10 import CLOSED_NODES, funcrefs
+    from .c10 import CLOSED_NODES, NS, funcrefs
 
-    n = 0
+    n = examined = 0
     for q in quals:
         ctx = r.root(q)
         fi = ctx.fi
-        # names that may hold the nodes of a closed family
-        closed_names = set()
+        # names that may hold the nodes of a closed family; names that hold reference nodes of any family
+        closed_names, sample_names = set(), set()
         for a in ast.walk(fi.node):
             if isinstance(a, ast.Assign) and len(a.targets) == 1 and isinstance(a.targets[0], (ast.Name, ast.Tuple)):
                 v = a.value
                 while isinstance(v, ast.Subscript):
                     v = v.value
+                if isinstance(v, ast.Call) and isinstance(a.targets[0], ast.Name) and any(f.startswith(NS) for f in funcrefs(ctx, v.func)):
+                    sample_names.add(a.targets[0].id)
                 if isinstance(v, ast.Call) and any(f in CLOSED_NODES for f in funcrefs(ctx, v.func)):
                     if isinstance(a.targets[0], ast.Name):
                         closed_names.add(a.targets[0].id)
@@ -2033,6 +2037,8 @@ def end_exact(r: R, chk, quals: List[str], rule="END-EXACT"):
             if not (isinstance(comp, (ast.GeneratorExp, ast.ListComp)) and len(comp.generators) == 1 and isinstance(comp.generators[0].target, ast.Name)):
                 continue
             it = comp.generators[0].iter
+            if isinstance(it, ast.Name) and it.id in (closed_names | sample_names) and _affine_form(comp.elt, comp.generators[0].target.id) is not None:
+                examined += 1
             if not (isinstance(it, ast.Name) and it.id in closed_names):
                 continue
             form = _affine_form(comp.elt, comp.generators[0].target.id)
@@ -2044,7 +2050,9 @@ def end_exact(r: R, chk, quals: List[str], rule="END-EXACT"):
             chk.ob(rule, f"{q}: `{seg(comp.elt, 40)}` maps the node 1 onto the upper end exactly", ok, loc=r.loc(ctx, comp),
                    detail="" if ok else f"{q}: the nodes of `{it.id}` may be a closed family (0 and 1 included) and are mapped by `{seg(comp.elt, 40)}`: in floating point `lo + (hi - lo) * 1` can exceed `hi` by one ulp (0.3 + (0.9 - 0.3) > 0.9), and the evaluation at that node is refused with ValueError (outside the interval) — the whole operation raises on such an interval; `(1 - t) * lo + t * hi` is exact at both ends",
                    func=q, construct=f"closed nodes mapped by {seg(comp.elt, 40)}")
-    return n
+    chk.extra.setdefault('end_exact_closed', 0)
+    chk.extra['end_exact_closed'] += n
+    return examined
 
 
 def starts_in_range(r: R, chk, qual: str, newton_suffix: str, rule="START-IN-RANGE"):
